@@ -2,7 +2,7 @@
    meas_rot (the rotation gates per Pauli) comes from QPG.measrot, regenerated from /repo. *)
 From Coq Require Import ZArith NArith List Bool Permutation.
 From QP Require Import Cx Apply Gates.
-From QPM Require Import Pauli CompBasis Measure Grouping Reconstruct.
+From QPM Require Import Pauli CompBasis Measure Grouping Reconstruct BitwiseGrouping.
 From QPG Require Import measrot.
 Import ListNotations.
 
@@ -56,6 +56,17 @@ Theorem reconstructor_is_product_of_z_eigenvalues :
   = fold_right (fun ip a => ((if N.testbit bits (N.of_nat (fst ip)) then (-1) else 1) * a)%Z) 1%Z l.
 Proof. exact reconstruct_is_eigenvalue_product. Qed.
 Print Assumptions reconstructor_is_product_of_z_eigenvalues.
+
+(* bitwise_pauli_grouping (identity / all-X / all-Y / all-Z special groups + greedy insertion of the rest) and
+   individual_pauli_grouping: the groups partition the input and the members of each group commute qubit-wise *)
+Theorem bitwise_grouping_partitions_the_labels : forall ls, Permutation (concat (bitwise_grouping ls)) ls.
+Proof. exact bitwise_grouping_partitions. Qed.
+Theorem bitwise_grouping_members_commute : forall ls, Forall (fun l => NoDup (keys l)) ls ->
+  forall g, In g (bitwise_grouping ls) -> forall m1 m2, In m1 g -> In m2 g -> qw_commute m1 m2.
+Proof. exact bitwise_groups_commute. Qed.
+Theorem individual_grouping_partitions_the_labels : forall ls, concat (individual_grouping ls) = ls.
+Proof. exact individual_grouping_partitions. Qed.
+Print Assumptions bitwise_grouping_members_commute.
 
 Example c07_example :
   map members (grouping [[(0%nat, PX); (1%nat, PY)]; [(0%nat, PZ)]; [(1%nat, PY); (2%nat, PZ)]; [(0%nat, PZ); (2%nat, PX)]])
